@@ -7,20 +7,26 @@ ap = argparse.ArgumentParser()
 ap.add_argument("patch")
 ap.add_argument("--props", default=None)
 ap.add_argument("--tier", default="quick")
+ap.add_argument("--repo", default="/repo", help="apply the change to this checkout (tools/matrix.sh uses private clones)")
+ap.add_argument("--json", default=None, help="also write the result table to this file")
 a = ap.parse_args()
-m = json.load(open("/verif/MANIFEST.json"))
+VERIF = os.path.dirname(os.path.dirname(os.path.abspath(__file__)))
+REPO = a.repo
+if REPO != "/repo":
+    os.environ["VERIF_REPO"] = REPO
+m = json.load(open(os.path.join(VERIF, "MANIFEST.json")))
 props = a.props.split(",") if a.props else [c["property_id"] for c in m["checks"]]
-st = subprocess.run(["git", "-C", "/repo", "status", "--porcelain"], capture_output=True, text=True).stdout.strip()
+st = subprocess.run(["git", "-C", REPO, "status", "--porcelain"], capture_output=True, text=True).stdout.strip()
 if st:
     print("refusing: /repo working tree is not clean:\n" + st); sys.exit(2)
-r = subprocess.run(["git", "-C", "/repo", "apply", os.path.abspath(a.patch)], capture_output=True, text=True)
+r = subprocess.run(["git", "-C", REPO, "apply", os.path.abspath(a.patch)], capture_output=True, text=True)
 if r.returncode:
     print("patch does not apply:", r.stderr); sys.exit(2)
 res = {}
 try:
     for p in props:
         t = time.time()
-        q = subprocess.run(["./check", p, "--tier", a.tier], cwd="/verif", capture_output=True, text=True)
+        q = subprocess.run(["./check", p, "--tier", a.tier], cwd=VERIF, capture_output=True, text=True)
         viol = [l for l in q.stdout.split("\n") if l.startswith("VIOLATION") or l.startswith("ERROR")]
         res[p] = dict(rc=q.returncode, lines=viol, s=round(time.time() - t, 1))
         tag = "FIRED" if q.returncode == 1 else ("ERROR" if q.returncode else "quiet")
@@ -30,6 +36,8 @@ try:
                 if "oracle failure" in l or "disagreement" in l or "no longer check" in l:
                     print("      " + l[:400])
 finally:
-    subprocess.run(["git", "-C", "/repo", "checkout", "--", "."])
-    subprocess.run(["git", "-C", "/repo", "clean", "-fdq", "--", "src", "tests"])
+    subprocess.run(["git", "-C", REPO, "checkout", "--", "."])
+    subprocess.run(["git", "-C", REPO, "clean", "-fdq", "--", "src", "tests"])
 print(json.dumps({p: r["rc"] for p, r in res.items()}))
+if a.json:
+    json.dump(dict(patch=os.path.abspath(a.patch), results=res), open(a.json, "w"), indent=1)
